@@ -90,7 +90,7 @@ def render(d, svc="Svc"):
         L.append(f"        async fn {m.name}(self, the_context: context::Context{args}){m.ret_ty()} {{")
         dbg = ", ".join(f"{n}" for n in m.anames)
         fmt = "".join(["|{:?}"] * m.arity)
-        L.append(f"            self.0.lock().unwrap().push(format!(\"{m.idx}{fmt}|{{}}\", {dbg + ', ' if dbg else ''}the_context.trace_id()));")
+        L.append(f"            self.0.lock().unwrap().push(format!(\"{m.idx}{fmt}|{{}}\", {dbg + ', ' if dbg else ''}format!(\"{{}}/{{:?}}\", the_context.trace_id(), the_context.trace_context.sampling_decision)));")
         val = " + ".join([f"{m.idx * 1000}u32"] + [f"{arg_as_u32(t, n)} * {w}" for n, t, w in zip(m.anames, m.tys, weights(m.arity))])
         if m.ret == "u32": L.append(f"            {val}")
         elif m.ret == "tuple": L.append(f"            ({val}, {m.idx}u32)")
@@ -144,6 +144,7 @@ def render(d, svc="Svc"):
         L.append("        {")
         L.append("            let mut ctx = context::current();")
         L.append(f"            ctx.trace_context.trace_id = tarpc::trace::TraceId::from({5000 + m.idx}u128);")
+        L.append(f"            ctx.trace_context.sampling_decision = tarpc::trace::SamplingDecision::{'Sampled' if m.idx % 2 == 1 else 'Unsampled'};")
         L.append("            let before = log.lock().unwrap().len();")
         L.append("            let nb = names.lock().unwrap().len();")
         L.append("            let wb = wire.lock().unwrap().len();")
@@ -157,8 +158,8 @@ def render(d, svc="Svc"):
         argdbg = "|".join({"u32": str(i + 1), "String": '\\"' + "s" * (i + 1) + '\\"', "u8": str(i + 1)}[t] for i, t in enumerate(m.tys))
         want = f"{m.idx}|{argdbg + '|' if argdbg else ''}"
         L.append("            let on_wire = wire.lock().unwrap().get(wb).cloned().unwrap_or_else(|| \"<no request seen on the wire>\".to_string());")
-        L.append(f"            let callers = format!(\"{{}}\", tarpc::trace::TraceId::from({5000 + m.idx}u128));")
-        L.append(f"            if !crate::support::otel() && on_wire != callers {{ fails.push(format!(\"method {m.name}: implementor saw a request transmitted with trace id {{on_wire}}, the caller's context had {{callers}}\")); }}")
+        L.append(f"            let callers = format!(\"{{}}/{'Sampled' if m.idx % 2 == 1 else 'Unsampled'}\", tarpc::trace::TraceId::from({5000 + m.idx}u128));")
+        L.append(f"            if !crate::support::otel() && on_wire != callers {{ fails.push(format!(\"method {m.name}: implementor saw a request transmitted with trace id / sampling decision {{on_wire}}, the caller's context had {{callers}}\")); }}")
         L.append(f"            let want = format!(\"{want}{{}}\", on_wire);")
         L.append("            let l = log.lock().unwrap();")
         L.append(f"            if l.len() != before + 1 || l[before] != want {{ fails.push(format!(\"method {m.name}: implementor saw {{:?}}, expected exactly [{{:?}}]\", &l[before..], want)); }}")
@@ -303,7 +304,7 @@ SUPPORT = """pub mod support {
         fn poll_next(mut self: Pin<&mut Self>, cx: &mut Context<'_>) -> Poll<Option<Self::Item>> {
             let r = Pin::new(&mut self.inner).poll_next(cx);
             if let Poll::Ready(Some(Ok(ClientMessage::Request(req)))) = &r {
-                self.seen.lock().unwrap().push(format!("{}", req.context.trace_context.trace_id));
+                self.seen.lock().unwrap().push(format!("{}/{:?}", req.context.trace_context.trace_id, req.context.trace_context.sampling_decision));
             }
             r
         }
